@@ -508,8 +508,19 @@ VARIANTS = [('host space slot base i (not i+1)',
  ('nested ifs / negated guard',
   'benign',
   'src/primaite/game/agent/observations/nic_observations.py',
-  [('        if self.capture_nmne and self.include_nmne:\n            obs.update({"NMNE": {}})',
-    '        if not (not self.capture_nmne or not self.include_nmne):\n            obs.update({"NMNE": {}})')]),
+  [('            if self.capture_nmne:\n                direction_dict',
+    '            if not (not self.capture_nmne):\n                direction_dict')]),
+ ('NMNE key emitted in both arms',
+  'benign',
+  'src/primaite/game/agent/observations/nic_observations.py',
+  [('        if self.include_nmne:\n'
+    '            # the space declares NMNE whenever it is included; without capture there is nothing to count\n'
+    '            obs["NMNE"] = {"inbound": 0, "outbound": 0}\n',
+    '        if self.include_nmne and not self.capture_nmne:\n'
+    '            obs["NMNE"] = {"inbound": 0, "outbound": 0}\n'
+    '        if self.include_nmne and self.capture_nmne:\n'
+    '            obs["NMNE"] = {}\n'
+    '        if self.include_nmne:\n')]),
  ('clamp written with max/min swap',
   'benign',
   'src/primaite/game/agent/observations/link_observation.py',
@@ -531,30 +542,24 @@ VARIANTS = [('host space slot base i (not i+1)',
     '        else:\n'
     '            st = 2\n'
     '        obs = {"nic_status": st}\n')]),
- ('NMNE default entry emitted',
-  'repair',
+ ('revert 1b091b0: NMNE key only when capturing',
+  'breaking',
   'src/primaite/game/agent/observations/nic_observations.py',
-  [('        if self.capture_nmne and self.include_nmne:\n            obs.update({"NMNE": {}})',
-    '        if self.include_nmne and not self.capture_nmne:\n'
-    '            obs["NMNE"] = {"inbound": 0, "outbound": 0}\n'
-    '        if self.capture_nmne and self.include_nmne:\n'
-    '            obs.update({"NMNE": {}})')]),
- ('traffic clamped',
-  'repair',
+  [('        if self.include_nmne:\n'
+    '            # the space declares NMNE whenever it is included; without capture there is nothing to count\n',
+    '        if self.include_nmne and self.capture_nmne:\n')]),
+ ('revert 3cca522: traffic band unclamped',
+  'breaking',
   'src/primaite/game/agent/observations/nic_observations.py',
-  [('        return int(bandwidth_utilisation * 9) + 1\n',
-    '        return min(int(bandwidth_utilisation * 9) + 1, 10)\n')]),
- ('file counters clamped',
-  'repair',
+  [('        return min(int(bandwidth_utilisation * 9) + 1, 10)\n',
+    '        return int(bandwidth_utilisation * 9) + 1\n')]),
+ ('revert fb8cfdb: one file counter unclamped',
+  'breaking',
   'src/primaite/game/agent/observations/host_observations.py',
-  [('obs["num_file_creations"] = node_state["file_system"]["num_file_creations"]',
-    'obs["num_file_creations"] = min(node_state["file_system"]["num_file_creations"], 3)'),
-   ('obs["num_file_deletions"] = node_state["file_system"]["num_file_deletions"]',
-    'obs["num_file_deletions"] = min(3, node_state["file_system"]["num_file_deletions"])')]),
- ('ip lookups with default',
-  'repair',
+  [('obs["num_file_deletions"] = min(node_state["file_system"]["num_file_deletions"], 3)',
+    'obs["num_file_deletions"] = node_state["file_system"]["num_file_deletions"]')]),
+ ('revert 1e820f3: dst ip lookup without default',
+  'breaking',
   'src/primaite/game/agent/observations/acl_observation.py',
-  [('src_node_id = 1 if src_ip is None else self.ip_to_id[src_ip]',
-    'src_node_id = 1 if src_ip is None else self.ip_to_id.get(src_ip, 1)'),
-   ('dst_node_id = 1 if dst_ip is None else self.ip_to_id[dst_ip]',
-    'dst_node_id = 1 if dst_ip is None else self.ip_to_id.get(dst_ip, 1)')])]
+  [('dst_node_id = 1 if dst_ip is None else self.ip_to_id.get(dst_ip, 1)',
+    'dst_node_id = 1 if dst_ip is None else self.ip_to_id[dst_ip]')])]
